@@ -180,3 +180,111 @@ pub broadcast proof fn lemma_vec_lines_eq(a: Vec<&[u8]>, b: Vec<&[u8]>)
         }
     }
 }
+
+// ---------------------------------------------------------------- C04: undo of a whole file patch application
+
+/// `rep` is the report of applying fp (direction d, fuzz f) to mf0, which gave mf1, and `cur` is that file now
+pub open spec fn undoable(fp: FilePatch<&[u8]>, mf0: ModifiedFile, d: PatchDirection, f: usize, rep: FilePatchApplyReport,
+                          mf1: ModifiedFile, cur: ModifiedFile) -> bool {
+    &&& mf0.content@.len() < BIG()
+    &&& apply_post(fp, mf0, d, f, rep, mf1)
+    &&& file_eq(cur, mf1)
+}
+
+pub proof fn lemma_modify_applied_state(fp: FilePatch<&[u8]>, mf0: ModifiedFile, d: PatchDirection, f: usize, rep: FilePatchApplyReport, mf1: ModifiedFile)
+    requires
+        filepatch_wf(fp), fp.kind == FilePatchKind::Modify, mf0.content@.len() < BIG(),
+        apply_post(fp, mf0, d, f, rep, mf1),
+    ensures
+        applied_state(deep(mf0.content@), fp.hunks@, d, rep.hunk_reports@),
+        cores_match(deep(mf0.content@), fp.hunks@, d, rep.hunk_reports@, fp.hunks@.len() as int),
+        deep(mf1.content@) == splice_spec(deep(mf0.content@), fp.hunks@, d, rep.hunk_reports@),
+        mf0.deleted ==> forall|i: int| 0 <= i < fp.hunks@.len() ==> !((#[trigger] rep.hunk_reports@[i]) is Applied),
+{
+    reveal(applied_state);
+    lemma_normal_cores_match(fp.hunks@, d, f as int, deep(mf0.content@), mf0.deleted, rep.hunk_reports@);
+}
+
+/// rollback mode's precondition on the patched file follows from apply's postcondition
+pub proof fn lemma_undo_pre(fp: FilePatch<&[u8]>, mf0: ModifiedFile, d: PatchDirection, f: usize, rep: FilePatchApplyReport,
+                            mf1: ModifiedFile, cur: ModifiedFile)
+    requires filepatch_wf(fp), undoable(fp, mf0, d, f, rep, mf1, cur)
+    ensures
+        undo_pre(fp, cur, opp(d), &rep),
+        rep.hunk_reports@.len() == fp.hunks@.len(),
+{
+    if fp.kind == FilePatchKind::Modify {
+        lemma_modify_applied_state(fp, mf0, d, f, rep, mf1);
+        lemma_applied_gives_rollback_pre(deep(mf0.content@), fp.hunks@, d, rep.hunk_reports@);
+        assert(deep(cur.content@).len() == cur.content@.len());
+    }
+}
+
+pub proof fn lemma_undo_modify_file(fp: FilePatch<&[u8]>, mf0: ModifiedFile, d: PatchDirection, f: usize, rep: FilePatchApplyReport,
+                                    mf1: ModifiedFile, cur: ModifiedFile, fz: usize, r2: FilePatchApplyReport, fin: ModifiedFile)
+    requires
+        filepatch_wf(fp), fp.kind == FilePatchKind::Modify,
+        undoable(fp, mf0, d, f, rep, mf1, cur),
+        undo_post(fp, cur, opp(d), fz, &rep, r2, fin),
+    ensures
+        !r2.any_failed, deep(fin.content@) == deep(mf0.content@),
+{
+    let hs = fp.hunks@;
+    let n = hs.len() as int;
+    let c0 = deep(mf0.content@);
+    let reps = rep.hunk_reports@;
+    let und = r2.hunk_reports@;
+    lemma_modify_applied_state(fp, mf0, d, f, rep, mf1);
+    let c1 = splice_spec(c0, hs, d, reps);
+    assert(deep(cur.content@) == c1);
+    if mf0.deleted {
+        // nothing had applied: everything is skipped now and nothing changes
+        reveal(undo_like);
+        assert forall|i: int| 0 <= i < n implies norm(#[trigger] und[i]) == undo_report(hs[i], d, reps[i]) && !(und[i] is Failed) by {
+            assert(!(reps[i] is Applied));
+        }
+        lemma_no_failed(und, n);
+    } else {
+        lemma_rollback_all_applied(c0, hs, d, reps, und);
+    }
+    lemma_undo_modify(c0, hs, d, reps, und);
+}
+
+pub proof fn lemma_undo_whole_file(fp: FilePatch<&[u8]>, mf0: ModifiedFile, d: PatchDirection, f: usize, rep: FilePatchApplyReport,
+                                   mf1: ModifiedFile, cur: ModifiedFile, fz: usize, r2: FilePatchApplyReport, fin: ModifiedFile)
+    requires
+        filepatch_wf(fp), fp.kind != FilePatchKind::Modify,
+        undoable(fp, mf0, d, f, rep, mf1, cur),
+        undo_post(fp, cur, opp(d), fz, &rep, r2, fin),
+    ensures
+        !r2.any_failed, deep(fin.content@) == deep(mf0.content@),
+{
+    let h = fp.hunks@[0];
+    assert(whole_old(fp, opp(d)) == whole_new(fp, d));
+    assert(whole_new(fp, opp(d)) == whole_old(fp, d));
+    assert(is_creation(fp, opp(d)) == is_deletion(fp, d));
+    assert(is_deletion(fp, opp(d)) == is_creation(fp, d));
+    assert(deep(fin.content@).len() == fin.content@.len());
+    assert(deep(mf0.content@).len() == mf0.content@.len());
+    if deep(fin.content@).len() == 0 && deep(mf0.content@).len() == 0 {
+        assert(deep(fin.content@) =~= deep(mf0.content@));
+    }
+}
+
+/// C04: rolling back an application restores content, existence and permissions exactly and does not fail
+pub proof fn lemma_undo_filepatch(fp: FilePatch<&[u8]>, mf0: ModifiedFile, d: PatchDirection, f: usize, rep: FilePatchApplyReport,
+                                  mf1: ModifiedFile, cur: ModifiedFile, fz: usize, r2: FilePatchApplyReport, fin: ModifiedFile)
+    requires
+        filepatch_wf(fp),
+        undoable(fp, mf0, d, f, rep, mf1, cur),
+        undo_post(fp, cur, opp(d), fz, &rep, r2, fin),
+    ensures
+        !r2.any_failed,
+        file_eq(fin, mf0),
+{
+    if fp.kind == FilePatchKind::Modify {
+        lemma_undo_modify_file(fp, mf0, d, f, rep, mf1, cur, fz, r2, fin);
+    } else {
+        lemma_undo_whole_file(fp, mf0, d, f, rep, mf1, cur, fz, r2, fin);
+    }
+}
